@@ -1971,9 +1971,27 @@ fn run_reclaim(case: &StressCase, api: Box<dyn Api>, cb: &RecTs) -> SResult {
     let mut reclaimed_after: Option<Duration> = None;
     // flood mode: two writers keep the insert buffer non-empty at every tick instant (items larger
     // than max_cost: rejected by the policy, so nothing accumulates)
-    let flood = case.perturb % 2 == 1;
+    let flood = case.perturb % 3 == 1;
+    // guard mode: a client keeps a write guard (get_mut) on a neighbouring key of an expiring
+    // entry's shard alive for ~300 us at a time, so that the sweep runs into a held shard lock
+    let guard = case.perturb % 3 == 2;
     let stop = AtomicBool::new(false);
+    let guard_key = 256 * 3 + (resident[0].key % 256);
+    if guard {
+        serial += 1;
+        let _ = api.insert(guard_key as u64, Val { key: guard_key, serial, tag: 1 }, 1, Duration::ZERO);
+        let _ = api.wait();
+    }
     std::thread::scope(|sc| {
+    if guard {
+        let api2 = api.dup();
+        let stop = &stop;
+        sc.spawn(move || {
+            while !stop.load(Ordering::Relaxed) {
+                let _ = api2.get_linger(guard_key as u64, 300, true);
+            }
+        });
+    }
     if flood {
         for w in 0..2u32 {
             let api2 = api.dup();
@@ -1982,7 +2000,8 @@ fn run_reclaim(case: &StressCase, api: Box<dyn Api>, cb: &RecTs) -> SResult {
                 let mut j = 0u32;
                 while !stop.load(Ordering::Relaxed) {
                     j += 1;
-                    let k = 20_000 + w * 100 + (j % 50);
+                    // keys of the shards the expiring entries live in (index % 256 in 0..6)
+                    let k = 256 * (80 + w) + (j % 6);
                     let v = Val { key: k, serial: 1_000_000 + w * 10_000_000 + j, tag: 1 };
                     let _ = api2.insert(k as u64, v, i64::MAX / 2, Duration::ZERO);
                 }
@@ -1992,7 +2011,8 @@ fn run_reclaim(case: &StressCase, api: Box<dyn Api>, cb: &RecTs) -> SResult {
     while start.elapsed() < budget {
         i += 1;
         serial += 1;
-        let k = 10_000 + (i % 7);
+        // traffic on other keys of the same shards
+        let k = 256 * 40 + (i % 7);
         let v = Val { key: k, serial, tag: 1 };
         match i % 4 {
             0 => {
@@ -2055,7 +2075,7 @@ fn run_reclaim(case: &StressCase, api: Box<dyn Api>, cb: &RecTs) -> SResult {
                 start.elapsed().as_millis(),
                 case.cfg.cleanup_ms,
                 gap,
-                if flood { " plus two writers flooding the insert buffer" } else { "" },
+                if flood { " plus two writers flooding the insert buffer" } else if guard { " plus a client holding a write guard on a neighbouring key of the shard" } else { "" },
                 case.exec
             ),
         ),
